@@ -38,7 +38,7 @@ EXPLANATION = (
     "kill fails the obligation)."
 )
 BOUNDS = [
-    "histories of 2 runs (quick) / 3 runs (thorough) over 3 row tokens; per run one of 6 (rows, batch_size) layouts; threshold in {0,1,2} (concrete per partition: quick 3 threshold pairs, thorough all 9) against symbolic per-token confidence in {0,1,2}; statistics requested or not per run; at most one killed run, crash point k in 0..80 write() calls (covers absent/empty/every chunk prefix/complete)",
+    "histories of 2 runs (quick) / 3 runs (thorough) over 3 row tokens; per run one of 7 (rows, batch_size) layouts; reported columns default or widened by 'mcs' per run; threshold in {0,1,2} (concrete per partition: quick 3 threshold pairs, thorough all 9) against symbolic per-token confidence in {0,1,2}; statistics requested or not per run; at most one killed run, crash point k in 0..80 write() calls (covers absent/empty/every chunk prefix/complete)",
 ]
 STUBS = [
     "Balancer.__run_pipeline -> pure function of (row token, threshold): solved = confidence(token) >= threshold, stats = {reaction_cnt, confident_cnt}",
@@ -143,6 +143,7 @@ LAYOUTS = [
     (["ra"], None),
     (["ra", "rb", "rc"], 2),
     (["ra", "ra"], 1),
+    (["rb", "ra"], None),
 ]
 CONF = {}
 CALLS = [0]
@@ -156,7 +157,7 @@ def _pipeline(rows, stats, thr):
         ok = True if CONF[t] >= thr else False
         if ok:
             conf_cnt += 1
-        out.append({"input_reaction": t, "reaction": t + ".done", "solved": ok, "solved_by": "mcs-based", "confidence": None, "rules": [], "issue": "" if ok else "below"})
+        out.append({"input_reaction": t, "reaction": t + ".done", "solved": ok, "solved_by": "mcs-based", "confidence": None, "rules": [], "issue": "" if ok else "below", "mcs": {"tag": t}})
     if stats is not None:
         stats["reaction_cnt"] = len(rows)
         stats["confident_cnt"] = conf_cnt
@@ -177,6 +178,7 @@ _B = None
 
 
 CACHE_DIRS = ("/cache", "/cache/strict")
+BASE_COLUMNS = ["input_reaction", "reaction", "solved", "solved_by", "confidence", "rules", "issue"]
 
 
 def _balancer(thr, cdir="/cache"):
@@ -208,7 +210,7 @@ def _key(batch):
 
 def h_history(l0: int, l1: int, l2: int, t0: int, t1: int, t2: int, ca: int, cb: int, cc: int, kill_run: int, k: int, s0: bool, s1: bool, s2: bool) -> bool:
     """
-    pre: 0 <= l0 < 6 and 0 <= l1 < 6 and 0 <= l2 < 6
+    pre: 0 <= l0 < 7 and 0 <= l1 < 7 and 0 <= l2 < 7
     pre: 0 <= t0 <= 2 and 0 <= t1 <= 2 and 0 <= t2 <= 2
     pre: 0 <= ca <= 2 and 0 <= cb <= 2 and 0 <= cc <= 2
     pre: -1 <= kill_run <= 1 and 0 <= k <= 80
@@ -231,6 +233,8 @@ def h_history(l0: int, l1: int, l2: int, t0: int, t1: int, t2: int, ca: int, cb:
         rows_tok, bs = LAYOUTS[ls[i]]
         thr = ts[i]
         b = _balancer(thr, CACHE_DIRS[fixed.get("d%d" % i, 0)])
+        # a caller may widen the reported columns (as the debugging helpers do with 'mcs')
+        b.columns = list(BASE_COLUMNS) + (["mcs"] if fixed.get("e%d" % i, 0) else [])
         data = [{"reaction": t} for t in rows_tok]
         # what the same call returns without a cache
         want_rows = []
@@ -291,6 +295,11 @@ def plan(tier):
                 continue
             P.append(Part(H + "h_history", {"runs": 2, "fix": {"l0": l0, "kill_run": -1, "s0": s0, "s1": s1, "t0": 0, "t1": 0}},
                           "history[2 runs|l0=%d,stats=%s%s]" % (l0, "y" if s0 else "n", "y" if s1 else "n"), group="history", timeout=1800, path_timeout=120))
+    # reported columns widened in the second run (narrow-then-wide) and narrowed (wide-then-narrow)
+    for l0 in ((0, 1) if tier != "thorough" else range(nl)):
+        for e0, e1 in ((0, 1), (1, 0)):
+            P.append(Part(H + "h_history", {"runs": 2, "fix": {"l0": l0, "l1": l0, "kill_run": -1, "s0": True, "s1": True, "t0": 0, "t1": 0, "e0": e0, "e1": e1}},
+                          "columns[2 runs|l0=%d,mcs column %s then %s]" % (l0, "on" if e0 else "off", "on" if e1 else "off"), group="columns", timeout=1800, path_timeout=120))
     # a second cache kept in a sub-directory of the first (run 1 writes cache/strict, run 2 uses cache, and reverse)
     for l0 in ((0, 1, 4) if tier != "thorough" else range(nl)):
         for d0, d1 in ((1, 0), (0, 1)):
